@@ -881,3 +881,10 @@ pub mod hb_gc {
     pub const RB_UNICODE_GENERAL_CATEGORY_PARAGRAPH_SEPARATOR: u32 = 28;
     pub const RB_UNICODE_GENERAL_CATEGORY_SPACE_SEPARATOR: u32 = 29;
 }
+
+/// Verification hooks (compiled only with `--cfg rb_verif`).
+#[cfg(rb_verif)]
+#[allow(unused_imports, dead_code, missing_docs)]
+pub mod verif_hooks {
+    use super::*;
+}
